@@ -34,6 +34,9 @@ func EnvFor(key string, opt sys.Options) *sys.Env {
 	for _, s := range gen.Schemas {
 		ddl = append(ddl, s.DDL)
 	}
+	for _, s := range gen.Extra {
+		ddl = append(ddl, s.DDL)
+	}
 	e, err := sys.NewEnv(ddl, opt)
 	if err != nil {
 		panic(fmt.Sprintf("cannot build closed system: %v", err))
